@@ -187,7 +187,29 @@ fn mutate(rng: &mut Rng, spec: &AppSpec, qid: &str) -> (Value, String, Option<bo
             // simple paths a request for 1e9 routes is legitimately enormous, so it is only sent where the number of
             // routes is bounded by the network (single-via: one per intersection vertex; plain searches ignore k)
             let yens = matches!(spec.alg, Alg::Yens { .. });
-            q["k"] = json!(*rng.pick(if yens { &[0u64, 1, 300, 1000] } else { &[0u64, 1, 1000, 1_000_000_000] }));
+            // ... or, for Yen's algorithm, by the number of loop-free routes between the query's end points when the
+            // generator can count them (ids given, at most 300 such routes): then any k is answered after that many routes
+            let net = &spec.world.net;
+            let ends = if spec.edge_oriented {
+                match (q.get("origin_edge").and_then(|v| v.as_u64()), q.get("destination_edge").and_then(|v| v.as_u64())) {
+                    (Some(a), Some(b)) if (a as usize) < net.ne() && (b as usize) < net.ne() => Some((net.edges[a as usize].dst, net.edges[b as usize].src)),
+                    _ => None,
+                }
+            } else {
+                match (q.get("origin_vertex").and_then(|v| v.as_u64()), q.get("destination_vertex").and_then(|v| v.as_u64())) {
+                    (Some(a), Some(b)) => Some((a as usize, b as usize)),
+                    _ => None,
+                }
+            };
+            let few_routes = ends.map(|(o, d)| crate::oracle::graph::count_simple_paths(net, o, d, 300, 200_000).is_some()).unwrap_or(false);
+            let choices: &[u64] = if !yens {
+                &[0, 1, 1000, 1_000_000_000, 10_000_000_000_000, u64::MAX]
+            } else if few_routes {
+                &[0, 1, 1000, 1_000_000_000, 10_000_000_000_000, u64::MAX]
+            } else {
+                &[0, 1, 300, 1000]
+            };
+            q["k"] = json!(*rng.pick(choices));
             ("k-absurd".into(), None)
         }
         19 => {
